@@ -226,6 +226,9 @@ pub enum CommentPolicy {
     OwnLine,
     /// only trailing line comments at line ends and own-line comments before line starts
     LineEdges,
+    /// as LineEdges plus `//` comments in the middle of statements (forced line breaks inside a
+    /// logical line), but no inline block comments
+    LineEdgesMid,
     /// additionally inline block comments and line comments in the middle of statements
     Anywhere,
 }
@@ -282,6 +285,12 @@ pub fn insert_comments(p: &Prog, t: &mut Tape, policy: CommentPolicy, density: u
                         out.toks.push(comment_tok(c, true, tok.depth, tok.in_anon));
                         out.tags.insert("comment:multi-line");
                     }
+                }
+            } else if policy == CommentPolicy::LineEdgesMid {
+                if t.chance(1, 3) {
+                    let c = t.pick_str(&LINE_COMMENTS[..5]);
+                    out.toks.push(comment_tok(c, false, tok.depth, tok.in_anon));
+                    out.tags.insert("comment:mid-statement-line");
                 }
             } else if policy == CommentPolicy::Anywhere {
                 if t.chance(2, 3) {
